@@ -1,0 +1,63 @@
+//! Verification hooks for the scope state (compiled only with `--cfg era_consensus_verif`).
+#![allow(missing_docs, unreachable_pub, clippy::missing_docs_in_private_items)]
+use std::sync::Arc;
+
+use super::state::{CancelGuard, OrPanic, State, TerminateGuard};
+use crate::ctx;
+
+/// The shared state of one scope (`State` behind its guards), for calling
+/// `TerminateGuard::set_err` from several real threads.
+pub struct VScopeState {
+    cancel: Option<CancelGuard<u32>>,
+    terminate: Arc<TerminateGuard<u32>>,
+}
+
+/// What a failed task reports.
+#[derive(Clone, Copy, Debug, PartialEq, Eq)]
+pub enum VFailure {
+    Err(u32),
+    Panic,
+}
+
+impl VScopeState {
+    /// `State::make` with a child context of `parent`.
+    pub fn new(parent: &ctx::Ctx) -> Self {
+        let cancel = State::make(parent.child(crate::time::Deadline::Infinite));
+        let terminate = cancel.terminate_guard().clone();
+        Self { cancel: Some(cancel), terminate }
+    }
+
+    /// A handle for one task (what every scope task holds).
+    pub fn task(&self) -> VTask {
+        VTask(self.terminate.clone())
+    }
+
+    /// Drops all guards held here and returns the recorded failure (`State::take_err`).
+    /// Every `VTask` must have been dropped before.
+    pub fn finish(mut self) -> Option<VFailure> {
+        self.cancel.take();
+        let state = self.terminate.state().clone();
+        drop(self);
+        state.take_err().map(|e| match e {
+            OrPanic::Err(e) => VFailure::Err(e),
+            OrPanic::Panic => VFailure::Panic,
+        })
+    }
+}
+
+pub struct VTask(Arc<TerminateGuard<u32>>);
+
+impl VTask {
+    /// `TerminateGuard::set_err`.
+    pub fn set_err(&self, f: VFailure) {
+        self.0.set_err(match f {
+            VFailure::Err(e) => OrPanic::Err(e),
+            VFailure::Panic => OrPanic::Panic,
+        })
+    }
+
+    /// Whether the scope's context is still active (a task noticing the cancellation lock-free).
+    pub fn is_active(&self) -> bool {
+        self.0.state().is_active()
+    }
+}
